@@ -285,7 +285,13 @@ func (g *runner) run(p *pkt, tag string, badmac bool) string {
 		if p.mode != "disp" && p.dp == svcPort {
 			bad = append(bad, "own-service-port")
 		}
-		if !strings.HasSuffix(ans, "same=1") {
+		if p.fwdOp {
+			// the forwarded datagram re-parsed: extension headers, options, authenticator (fwdext.go)
+			if o.fwd != nil && !strings.Contains(ans, " same=1 ") {
+				bad = append(bad, "changed")
+			}
+			bad = append(bad, fwdExtOracle(p, &o)...)
+		} else if !strings.HasSuffix(ans, "same=1") {
 			bad = append(bad, "changed")
 		}
 		if len(bad) > 0 {
@@ -314,6 +320,11 @@ func gen(c *lib.Ctx) {
 		killChildren()
 		return
 	}
+	if os.Getenv("C13_PART") == "fwdext" { // development: forwards with extension headers only
+		genFwdExt(g, c.Rand.Fork("fwdext"), c.Scale(400, 4000))
+		killChildren()
+		return
+	}
 	if os.Getenv("C13_PART") == "epochs" {
 		genEpochHistories(g, c.Rand.Fork("epochs"), c.Scale(2, 8))
 		killChildren()
@@ -329,12 +340,20 @@ func gen(c *lib.Ctx) {
 	genPorts(g, c.Rand.Fork("ports"), c.Scale(800, 7000))
 	genSCMP(g, c.Rand.Fork("scmp"), c.Scale(500, 5000))
 	genDispatcher(g, c.Rand.Fork("disp"), c.Scale(300, 3000))
+	genFwdExt(g, c.Rand.Fork("fwdext"), c.Scale(400, 2500))
 	genKeyHistories(g, c.Rand.Fork("keys"), c.Scale(60, 600))
 	if os.Getenv("C13_EPOCHS") == "1" {
 		// waits for real DRKey epoch changes (a few seconds each): only where property C13 asks for it
 		genEpochHistories(g, c.Rand.Fork("epochs"), c.Scale(2, 8))
 	}
 	genIdent(g, c.Rand.Fork("ident"), c.Scale(60, 600))
+	// how often an observation had to be confirmed by a second, isolated run (load of the machine)
+	for i := 0; i < dropsRefuted; i++ {
+		c.Count("confirm:silence-refuted")
+	}
+	for i := 0; i < tsConfirmed; i++ {
+		c.Count("confirm:forward-without-timestamp-option-rerun")
+	}
 	killChildren()
 }
 
